@@ -47,8 +47,7 @@ func (o *Output) ReadFrom(r io.Reader) (int64, error) {
 		return bytesRead, err
 	}
 
-	script := make([]byte, l)
-	n, err = io.ReadFull(r, script)
+	script, n, err := readBytes(r, uint64(l))
 	bytesRead += int64(n)
 	if err != nil {
 		return bytesRead, errors.Wrapf(err, "lockingScript(%d): got %d bytes", l, n)
